@@ -58,18 +58,18 @@ CHECKS = {
  "C06": dict(level="exploration", engine="netmc", ref="§3 C06",
    technique="exhaustive enumeration of a datagram alphabet x connection-id classes x sources against real socket workers over loopback (mio and io_uring), fenced per socket, oracle from an independent BEP 15 decoder and a clone of the validator",
    text="~2300 datagrams per backend configuration (connect shapes, announce events / numwant extremes / port 0 / extension bytes up to 5000 / 97 bytes / unknown event, scrapes of 1..255 hashes incl. the 23/24 and 70/71 boundaries, empty and ragged hash lists, unknown action, every truncation length, every single-bit flip of one announce and one scrape) x {valid, other-source, far-future, forged, stale} connection ids x sources 127.0.0.1, 127.0.0.2, ::1 are sent to real run_socket_worker threads (mio / io_uring, 1 and 2 workers); each reply is attributed by transaction id, absence is established by a fence connect on the same socket; at most one reply, to the sender only, of the right kind, nothing but a <= request-size connect reply without a valid id, scrape entries exactly the first max_scrape_torrents in order, swarm state unchanged by rejected datagrams.",
-   note="Scheduling inside the workers is not controlled; source port 0 is covered at parser level (C12) only; datagrams beyond 5 KiB not sent."),
+   note="Scheduling inside the workers is not controlled; source port 0 is injected through a raw IPv4 socket; datagrams beyond 5 KiB not sent."),
  "C18": dict(level="exploration", engine="netmc", ref="§3 C18",
    technique="exhaustive enumeration of configuration values against real trackers started through run() in child processes, worst-case accepted request per value, control request of identical length",
    text="For UDP (mio and io_uring, IPv4 and IPv6) and HTTP, every configuration value in the tier's range (quick: 0, 1, defaults, both sides of each buffer threshold; thorough: every value 0..=600 plus IPv4 thresholds, every u8 max_scrape_torrents) starts a real tracker through run() - or the start-up is observed to be refused; the swarm is filled to exactly the limit and to limit+1 and the request with the largest possible reply is sent; HTTP scrapes of every hash count the request buffer admits are sent, each paired with a same-length control request, so that a closed connection or silence with an answered control is a reply that did not fit.",
    note="Requests the request path rejects are out of scope (C06/C16); counters are small (buffers are sized for 20-digit counters)."),
  "C19": dict(level="fault_enumeration", engine="netmc", ref="§3 C19",
    technique="exhaustive enumeration of fault plans (worker kind x fault point x panic/return x time x worker count) against run() in child processes, injected through cfg-gated probes",
-   text="57 (quick) / ~150 (thorough) fault plans: for UDP (mio and io_uring), HTTP and WS, every worker kind (socket, swarm, cleaning, statistics, signals) is made to panic - and, where returning ends the worker function, to return - at start-up, at its first loop iteration and after requests have been served, with 1 and 2 workers of the kind; plus a socket that cannot be bound (no hook). Each plan runs the real run() in a child process with traffic / SIGUSR1 as needed to reach the point; run() must return Err within 10 s of the probe firing. A plan whose point is never reached is a machinery failure, not a pass.",
-   note="Hanging workers and the prometheus worker are not covered; time is measured inside the child from the probe firing."),
+   text="78 (quick) / ~180 (thorough) fault plans: for UDP (mio and io_uring), HTTP and WS, every worker kind (socket, swarm, cleaning, statistics, signals, metrics/prometheus) is made to panic - and, where returning ends the worker function, to return - at start-up, at its first loop iteration and after requests have been served, with 1 and 2 workers of the kind; plus a tracker socket and a metrics endpoint that cannot be bound (no hook). Each plan runs the real run() in a child process with traffic / SIGUSR1 as needed to reach the point; run() must return Err within 10 s of the probe firing. A plan whose point is never reached is a machinery failure, not a pass.",
+   note="Hanging workers are not covered; a panic in the metrics thread's detached tokio render task does not stop the worker and is not a plan; time is measured inside the child from the probe firing."),
  "C16": dict(level="model_checking", engine="netmc", ref="§3 C16",
    technique="explicit-state BFS of a reference model + conformance replay of every explored transition against running trackers over all worker-count configurations and placements",
-   text="A reference model (one tracker, 2-3 connections, 2-3 torrents; announce / scrape shapes / malformed / oversized / close) is explored breadth-first with deduplication; every transition of the explored graph (1.6k quick, more at depth 4) is replayed - BFS-tree path to its source, then the transition, in a fresh info-hash namespace - against aquatic_http::run in child processes for socket_workers x swarm_workers configurations (quick 4, thorough all 18 incl. keep-alive off), connections placed on chosen socket workers (hook H7) and torrents on chosen swarm workers; short paths under every placement; a max_scrape_torrents=2 family; every byte-offset split of one announce and one scrape into TCP segments. Each reply must be exactly one HTTP/1.1 200 with exact Content-Length, canonical bencode equal to the single-tracker model.",
+   text="A reference model (one tracker, 2-3 connections, 2-3 torrents; announce / scrape shapes / malformed / oversized / close) is explored breadth-first with deduplication; every transition of the explored graph (1.6k quick, more at depth 4) is replayed - BFS-tree path to its source, then the transition, in a fresh info-hash namespace - against aquatic_http::run in child processes for socket_workers x swarm_workers configurations (quick 4, thorough all 18 incl. keep-alive off), connections placed on chosen socket workers (hook H7) and torrents on chosen swarm workers; short paths under every placement; max_scrape_torrents=2 and =0 families; deep scenarios with 6 connections and 6 peers per torrent; every byte-offset split of one announce and one scrape into TCP segments. Each reply must be exactly one HTTP/1.1 200 with exact Content-Length, canonical bencode equal to the single-tracker model.",
    note="Executor scheduling inside the tracker is not controlled (requests of a path are serial; paths run concurrently in disjoint namespaces); malformed requests are judged by 120 ms of silence."),
  "C17": dict(level="model_checking", engine="netmc", ref="§3 C17",
    technique="explicit-state BFS over event sequences of a reference model + conformance replay of every explored transition against running trackers (worker-count configurations, placements), every connection fenced after every event",
